@@ -102,7 +102,7 @@ L2_NOTE = ("Real anndb server processes (cmd/anndb's main with the verif hooks w
            "crash = SIGKILL; zero-group snapshots are requested through the verif hook instead of waiting for 5000 entries; views are read after a bounded quiescence wait.")
 CHECKS.update({
     "C14": dict(
-        text="Catalogue.tla models the catalogue state machine over the zero group's log with snapshots, restores and restarts, and the switches RestoreMode / WireFirst (TLC: every node equals the replay of the log it applied - holds in the repaired positions, counterexamples for add-only restore, for a restore that keeps the replica sets of known datasets, and for starting the apply loop before the consumer is wired). Thirteen scenarios run on three to five real server processes - create / delete through different nodes, kill -9 and restart of a follower and of the bootstrap node, with the consumer wired late (gate), after a zero-group snapshot (with descriptor reads before it), after a node left, a follower that was down while datasets were created and deleted and the logs compacted and that catches up through a snapshot installed into the catalogue it already holds (also a snapshot of an empty catalogue), the bootstrap node being removed through another member and stopped (the rest carries on: creation, restart), a node leaving while a member is down (with three and with four nodes, so that the replica-set changes are committed behind the absent member and reach it only through the snapshot), a lost join hand-shake - and ClusterViewTrace compares every node's List() with what the acknowledged operations imply (ids, dimension, partitions, replica sets identical on all nodes, also after restart).",
+        text="Catalogue.tla models the catalogue state machine over the zero group's log with snapshots, restores and restarts, and the switches RestoreMode / WireFirst (TLC: every node equals the replay of the log it applied - holds in the repaired positions, counterexamples for add-only restore, for a restore that keeps the replica sets of known datasets, and for starting the apply loop before the consumer is wired). The real storage.DatasetManager is driven by hundreds (thorough: thousands) of random logs of create / delete / add-node / remove-node entries on three managers - whole log; a prefix, then the snapshot of a later index, then the rest; snapshot and rest - which must end with the same datasets, partitions in the same order and replica sets without duplicates (CatalogueReplayTrace). Thirteen scenarios run on three to five real server processes - create / delete through different nodes, kill -9 and restart of a follower and of the bootstrap node, with the consumer wired late (gate), after a zero-group snapshot (with descriptor reads before it), after a node left, a follower that was down while datasets were created and deleted and the logs compacted and that catches up through a snapshot installed into the catalogue it already holds (also a snapshot of an empty catalogue), the bootstrap node being removed through another member and stopped (the rest carries on: creation, restart), a node leaving while a member is down (with three and with four nodes, so that the replica-set changes are committed behind the absent member and reach it only through the snapshot), a lost join hand-shake - and ClusterViewTrace compares every node's List() with what the acknowledged operations imply (ids, dimension, partitions, replica sets identical on all nodes, also after restart).",
         note=L2_NOTE + "",
         technique="TLA+ model checking (TLC) + scenarios on real server processes + TLC trace validation of every node's catalogue view", ref="5/C14"),
     "C20": dict(
